@@ -51,6 +51,8 @@ func NewOrderedPartition(n, m int, vertexClasses [][]int) *CanonicalOrderedParti
 				inCell[v] = i
 				index++
 			}
+			//The search relies on the vertices of a bin being in increasing order.
+			ints.Sort(order[index-len(vertexClasses[i]) : index])
 			binDividers[i] = index
 		}
 	}
@@ -104,6 +106,8 @@ func (op *CanonicalOrderedPartition) Reset(n, m int, vertexClasses [][]int) {
 				op.inCell[v] = i
 				index++
 			}
+			//The search relies on the vertices of a bin being in increasing order.
+			ints.Sort(op.order[index-len(vertexClasses[i]) : index])
 			op.binDividers[i] = index
 		}
 	}
